@@ -97,6 +97,8 @@ def mismatch(lean, py, path=''):
             from pytoniq_core.boc.slice import Slice
             if not isinstance(py, Slice):
                 return f'{path}: Lean Slice, library {type(py).__name__}'
+            if v is None:
+                return None                  # a raw leaf of a dictionary read without a value_deserializer: presence only (declared)
             return None if V.cell_json_canon(v) == V.lib_cell_canon(py.to_cell()) else f'{path}: slices differ'
         if name == 'tuple':
             if not isinstance(py, tuple) or len(py) != len(v):
